@@ -348,7 +348,7 @@ theorem inv_step (cfg : Cfg) (env : Env) (lib : Lib) (op : Op) (w : World) (hcfg
         have htl : toks.length = 16 := by
           have := strSplit_len cfg.numWords tmp (by rw [hsp]; exact hn')
           rw [hsp] at this; simpa [hcfg.numWords] using this
-        exact decodeFinish_inv cfg lib _ coin _ pre w h (fun x hx => Nat.lt_of_lt_of_le (hlt x hx) (hcfg.sizes' L hL))
+        exact decodeFinish_inv cfg lib _ coin _ _ w h (fun x hx => Nat.lt_of_lt_of_le (hlt x hx) (hcfg.sizes' L hL))
           (by rw [hl, htl]) hop
   | decodeExplicit s coin li =>
     simp only [step, decodeExplicit]
